@@ -41,3 +41,35 @@ Example C08_mszip_sample :
       | _ => False end
   | _ => False end.
 Proof. vm_compute. repeat split. Qed.
+
+(* ---- whole extraction histories on the cabinet model (Model/Cab.v, tied to cabd.c), MSZIP folders ---- *)
+From Coq Require Import ZArith.
+From MSP Require Import Gen.Consts Model.Chm Model.Cab Proofs.CabP Proofs.CabHist Props.CabSampleZ.
+(* one decompressor, any list of members of one MSZIP folder each starting at or after the end of the one before, any DECOMPBUF, strict or
+   salvage: every call returns the status and the bytes a fresh decompressor returns for that member.  [good f]: f belongs to the folder,
+   passes cabd_extract's size checks, is not empty, and the ideal run of the decoder over the folder's blocks up to f's end succeeds. *)
+Theorem C08_mszip_history_independent : forall file par cab, 0 < p_bufsize par ->
+  forall fidx fo pre post bs, nth_error (c_folders cab) (N.to_nat fidx) = Some fo -> ctype (fo_comp fo) = cffoldCOMPTYPE_MSZIP ->
+  file = pre ++ encs bs ++ post -> fo_offset fo = Z.of_N (Chm.len pre) -> N.of_nat (length bs) = fo_nblocks fo -> Forall (wf_blk (c_bres cab)) bs ->
+  forall fs, bs <> [] -> ordered 0 fs -> Forall (good par fidx fo bs) fs ->
+  seq_extract file par cab cs_init fs = map (fun f => let '(e, o, _) := extract file par cab cs_init f in (e, o)) fs.
+Proof. exact mszip_history_independent. Qed.
+Print Assumptions C08_mszip_history_independent.
+
+(* the premises hold of a generated cabinet: one MSZIP folder, three members, all three in order *)
+Example C08_mszip_history_sample : exists cab fo f0 f1 f2,
+  cab_open zsample_cab false = (MSPACK_ERR_OK, Some cab) /\ c_files cab = [f0; f1; f2] /\ nth_error (c_folders cab) 0 = Some fo /\
+  ctype (fo_comp fo) = cffoldCOMPTYPE_MSZIP /\
+  zsample_cab = firstn (N.to_nat zsample_dataoff) zsample_cab ++ encs zsample_blocks ++ zsample_post /\
+  fo_offset fo = Z.of_N (Chm.len (firstn (N.to_nat zsample_dataoff) zsample_cab)) /\ N.of_nat (length zsample_blocks) = fo_nblocks fo /\
+  Forall (wf_blk (c_bres cab)) zsample_blocks /\ ordered 0 [f0; f1; f2] /\
+  Forall (good (mkPar false false 4096) 0 fo zsample_blocks) [f0; f1; f2] /\
+  map snd (seq_extract zsample_cab (mkPar false false 4096) cab cs_init [f0; f1; f2]) = [firstn 7 zsample_plain; firstn 20 (skipn 7 zsample_plain); skipn 27 zsample_plain].
+Proof.
+  eexists. eexists. eexists. eexists. eexists. split; [vm_compute; reflexivity|]. split; [reflexivity|]. split; [reflexivity|].
+  split; [vm_compute; reflexivity|]. split; [vm_compute; reflexivity|]. split; [vm_compute; reflexivity|]. split; [vm_compute; reflexivity|].
+  split. { constructor; [|constructor]. unfold wf_blk. repeat split; try (vm_compute; reflexivity); try (vm_compute; discriminate). right. vm_compute. reflexivity. }
+  split. { cbn [ordered]. repeat split; vm_compute; discriminate. }
+  split. { repeat constructor; try (vm_compute; reflexivity); try (vm_compute; discriminate); eexists; vm_compute; reflexivity. }
+  vm_compute. reflexivity.
+Qed.
